@@ -21,6 +21,14 @@ EVAL_TB = COMMON_TB + ["modelled: eval/eval.go (all of evalInternal and helpers 
                        "the parser's tree and each function literal's cache key are taken from the real parser/printer (inputs of the model)"]
 EVAL_ASSUME = ["Lean's native Float (IEEE double, same hardware operations as Go on amd64) in the driver",
                "a case the model declines is not a disagreement; the cross-configuration statements are still evaluated on it"]
+_FRONT_RULE = ("Front-end suites: the harness runs the REAL lexer+parser+printer on each source text and sends the token stream of the real "
+               "lexer with the observation; the driver recomputes the parse (errors count, continuation, canonical tree dump, no-nil flag) and all "
+               "printed texts with the Lean model from that stream and compares everything; the property's statement is evaluated on the "
+               "implementation's observation.")
+_FRONT_TB = ["modelled: parser/parser.go (all parse functions, ErrorLine slicing condition), ast/ast.go (all PrettyPrint methods, PrintState), "
+             "strconv.Quote (UTF-8 decoding + escapes; IsPrint table generated)",
+             "generated on every run: token.Type enumeration, ast.Precedences, ast.Priority, parser.New registrations, constant-token literals",
+             "not modelled here: lexer (its token stream is an input), error message wording, Val fields of number literals (function of the literal)"]
 
 PROPS = {
     "C11": {
@@ -239,5 +247,73 @@ PROPS = {
                 "C07 statement: no Go panic (other than the depth/memory guards) in any of the four configurations.",
         "trusted_base": EVAL_TB,
         "assumptions": EVAL_ASSUME,
+    },
+    "C08": {
+        "generated": True,
+        "proof_modules": ["GrolProofs.Props.C08", "GrolProofs.Precedence"],
+        "theorems": ["Grol.C08.parser_never_panics", "Grol.C08.printer_never_panics", "Grol.C08.partial",
+                     "Grol.Parser.parseProgram_no_panic", "Grol.Parser.allSafe", "Grol.Parser.streamWF_of_b",
+                     "Grol.Printer.printProgram_no_panic", "Grol.Printer.infix_tokens_have_precedence",
+                     "Grol.Printer.index_tokens_have_precedence", "Grol.Printer.postfix_tokens_have_precedence",
+                     "Grol.Printer.expected_tokens_are_constant", "Grol.Parser.parseComment_regs",
+                     "Grol.Generated.precedences_documented", "Grol.Generated.priorities_documented",
+                     "Grol.Generated.prefix_registrations_expected", "Grol.Generated.infix_registrations_expected",
+                     "Grol.Generated.postfix_registrations_expected"],
+        "suites": ["parse"],
+        "rule": _FRONT_RULE + " parse suite: one case = one source text, parsed in file mode AND line mode, each tree printed in 4 modes "
+                "(normal, compact, all-parens, compact+all-parens) under recover. Families: all sequences of <=2 tokens of a 52-token alphabet "
+                "and all sequences of 3 tokens of a 31-token alphabet (quick; thorough: 3 of 52, 4 of 31), each rendered with and without "
+                "separating spaces; 33 grammar templates with 2-3 holes filled exhaustively/sampled; random token soups; grammar-generated "
+                "programs; every-byte / sampled truncations and byte mutations (NUL, 0x80-0xFF, delimiters) of examples/*.gr and tests/*.gr. "
+                "The statement also checks, on the real lexer's streams, the two lexer facts (StreamWF) the no-panic theorem assumes. "
+                "non-trivial = non-empty tree, an error or a continuation; distinct = distinct source text.",
+        "trusted_base": COMMON_TB + _FRONT_TB,
+        "assumptions": ["token streams are produced by the real lexer (lexer model composed later); the two facts about them that the "
+                        "parser theorem needs (StreamWF: lastNewLine <= min(pos,len); a line comment is followed by a newline or the end marker) "
+                        "are evaluated on every stream of every case",
+                        "strconv.ParseInt/ParseFloat acceptance of a number literal is carried with the token (NumClass), computed by the same library calls"],
+    },
+    "C15": {
+        "generated": True,
+        "proof_modules": ["GrolProofs.Props.C15", "GrolProofs.Props.C08"],
+        "theorems": ["Grol.C15.witness_unclosed_string_after_statement", "Grol.C15.witness_empty_lambda_parameter_list",
+                     "Grol.C15.witness_unclosed_comment_ending_in_star_slash", "Grol.C15.witness_file_mode_accepts_unclosed_block",
+                     "Grol.C08.parser_never_panics"],
+        "suites": ["parse15"],
+        "rule": _FRONT_RULE + " parse15 suite: grammar-generated valid programs (1-3 statements, depth <=3) and the shipped examples; for each, "
+                "EVERY token-boundary cut, the cut just before the closing quote of every string and 5 cuts inside every block comment "
+                "(case `<program>@<k>`: line mode on the prefix; hypothesis of part 2 decided by Front.cutKind on the file-mode stream of the "
+                "whole program), plus the whole program and a quarter of the prefixes as plain cases for part 1. Part 3 (chunked evaluation) is not covered here.",
+        "trusted_base": COMMON_TB + _FRONT_TB,
+        "assumptions": ["as C08"],
+    },
+    "C02": {
+        "generated": True,
+        "proof_modules": ["GrolProofs.Props.C02", "GrolProofs.Props.C08", "GrolProofs.Precedence"],
+        "theorems": ["Grol.C02.witness_statement_starts_with_prefix_operator", "Grol.C02.witness_compact_adjacent_statements",
+                     "Grol.C02.witness_repeated_associative_operator", "Grol.C08.parser_never_panics", "Grol.C08.printer_never_panics",
+                     "Grol.Generated.precedences_documented"],
+        "suites": ["format"],
+        "rule": _FRONT_RULE + " format suite: one case = one source text; in file mode and in line mode: parse, print (normal, compact, "
+                "all-parens, compact+all-parens), re-parse the normal and the compact text, print again. Families: every ordered pair of the 20 infix "
+                "operators in parent/left-child and parent/right-child position, x 7 prefix and 2 postfix operators, index/call/dot/lambda "
+                "combinations (~40 templates per operator); ~330 hand-picked adjacency, comment, literal and lambda cases; every ordered pair of 41 "
+                "statement kinds x 4 separators, at top level and in a block; grammar-generated programs with all literal forms and strings over "
+                "arbitrary bytes/runes; the shipped examples and byte mutations. Tree equality ignores the two layout flags of comments, and "
+                "statement-level comments in compact mode. non-trivial = error-free non-empty program.",
+        "trusted_base": COMMON_TB + _FRONT_TB,
+        "assumptions": ["as C08", "strconv.IsPrint for runes >= 0x80 is a generated table (lean/Grol/Generated/IsPrint.lean)"],
+    },
+    "C03": {
+        "generated": True,
+        "proof_modules": ["GrolProofs.Props.C03", "GrolProofs.Props.C08"],
+        "theorems": ["Grol.C03.ends_with_newline", "Grol.Printer.printNode_frame", "Grol.C03.model_is_stateless",
+                     "Grol.C03.witness_not_idempotent", "Grol.C08.printer_never_panics"],
+        "suites": ["format03"],
+        "rule": _FRONT_RULE + " format03 suite: same cases as the format suite; statement = second-pass text byte-identical to the first "
+                "(normal and compact), normal text ends with exactly one newline, and (every 40th case) same bytes after token.Init() reset the "
+                "interning table. Map iteration order cannot be exhibited by the pure model (Order slice is what is printed).",
+        "trusted_base": COMMON_TB + _FRONT_TB,
+        "assumptions": ["as C02"],
     },
 }
